@@ -149,4 +149,604 @@ theorem shift_spec (a : Array G) (start end_ l r : Nat) (hse : start + l + r ≤
       · rw [if_pos h]; congr 1; omega
       · rw [if_neg h]
 
+theorem ok_bind {α β : Type} (x : α) (f : α → M β) : (Except.ok x >>= f) = f x := rfl
+
+/-- index permutation inside a two-record block that is flipped -/
+def flip2 (rev : Bool) (i : Nat) : Nat := if rev then 1 - i else i
+
+theorem rearrangeCore_get (a : Array G) (start end_ l r : Nat) (revL revR : Bool)
+    (hl : l ≤ 2) (hr : r ≤ 2) (hse : start + l + r ≤ end_) (hsz : end_ ≤ a.size)
+    (hrl : revL = true → l = 2) (hrr : revR = true → r = 2) :
+    ∃ a', rearrangeCore a start end_ l r revL revR = .ok a' ∧ a'.size = a.size ∧
+      ∀ k, a'[k]? =
+        if start ≤ k ∧ k < start + r then a[end_ - r + flip2 revR (k - start)]?
+        else if start + r ≤ k ∧ k < end_ - l then a[k - r + l]?
+        else if end_ - l ≤ k ∧ k < end_ then a[start + flip2 revL (k - (end_ - l))]?
+        else a[k]? := by
+  unfold rearrangeCore
+  obtain ⟨b1, eb1, sb1, kb1⟩ := copyFrom a start 0 l (Array.replicate 4 G.dflt) (by omega) (by simp; omega)
+  obtain ⟨b2, eb2, sb2, kb2⟩ := copyFrom a (end_ - r) 2 r b1 (by omega) (by simp [sb1]; omega)
+  obtain ⟨a1, ea1, sa1, ka1⟩ := shift_spec a start end_ l r hse hsz
+  have sb2' : b2.size = 4 := by simp [sb2, sb1]
+  obtain ⟨a2, ea2, sa2, ka2⟩ := copyFrom b2 2 start r a1 (by omega) (by omega)
+  obtain ⟨a3, ea3, sa3, ka3⟩ := copyFrom b2 0 (end_ - l) l a2 (by omega) (by omega)
+  -- formula without the swaps
+  have k3 : ∀ k, a3[k]? =
+      if start ≤ k ∧ k < start + r then a[end_ - r + (k - start)]?
+      else if start + r ≤ k ∧ k < end_ - l then a[k - r + l]?
+      else if end_ - l ≤ k ∧ k < end_ then a[start + (k - (end_ - l))]?
+      else a[k]? := by
+    intro k
+    rw [ka3]
+    by_cases c3 : end_ - l ≤ k ∧ k < end_
+    · rw [if_pos (by omega), if_neg (by omega), if_neg (by omega), if_pos c3]
+      rw [kb2, if_neg (by omega), kb1, if_pos (by omega)]
+      congr 1; omega
+    · rw [if_neg (by omega), ka2]
+      by_cases c1 : start ≤ k ∧ k < start + r
+      · rw [if_pos c1, if_pos c1, kb2, if_pos (by omega)]
+        congr 1; omega
+      · rw [if_neg c1, if_neg c1, ka1]
+        by_cases c2 : start + r ≤ k ∧ k < end_ - l
+        · rw [if_pos c2, if_pos c2]
+        · rw [if_neg c2, if_neg c2, if_neg c3]
+  -- the two optional swaps
+  have hsA : ∃ a4, optSwap revL a3 (end_ - 1) (end_ - 2) = .ok a4 ∧ a4.size = a.size ∧
+      ∀ k, a4[k]? =
+        if start ≤ k ∧ k < start + r then a[end_ - r + (k - start)]?
+        else if start + r ≤ k ∧ k < end_ - l then a[k - r + l]?
+        else if end_ - l ≤ k ∧ k < end_ then a[start + flip2 revL (k - (end_ - l))]?
+        else a[k]? := by
+    cases revL with
+    | false => exact ⟨a3, rfl, by omega, by intro k; rw [k3]; simp [flip2]⟩
+    | true =>
+      have l2 : l = 2 := hrl rfl
+      subst l2
+      obtain ⟨a4, e4, s4, k4⟩ := swapA_spec a3 (end_ - 1) (end_ - 2) (by omega) (by omega)
+      refine ⟨a4, e4, by omega, ?_⟩
+      intro k; rw [k4]
+      by_cases h1 : k = end_ - 2
+      · rw [if_pos h1, k3, if_neg (by omega), if_neg (by omega), if_pos (by omega),
+          if_neg (by omega), if_neg (by omega), if_pos (by omega)]
+        congr 1; simp [flip2]; omega
+      · rw [if_neg h1]
+        by_cases h2 : k = end_ - 1
+        · rw [if_pos h2, k3, if_neg (by omega), if_neg (by omega), if_pos (by omega),
+            if_neg (by omega), if_neg (by omega), if_pos (by omega)]
+          congr 1; simp [flip2]; omega
+        · rw [if_neg h2, k3]
+          by_cases c1 : start ≤ k ∧ k < start + r
+          · rw [if_pos c1, if_pos c1]
+          · rw [if_neg c1, if_neg c1]
+            by_cases c2 : start + r ≤ k ∧ k < end_ - 2
+            · rw [if_pos c2, if_pos c2]
+            · rw [if_neg c2, if_neg c2, if_neg (by omega), if_neg (by omega)]
+  obtain ⟨a4, ea4, sa4, ka4⟩ := hsA
+  have hsB : ∃ a5, optSwap revR a4 start (start + 1) = .ok a5 ∧ a5.size = a.size ∧
+      ∀ k, a5[k]? =
+        if start ≤ k ∧ k < start + r then a[end_ - r + flip2 revR (k - start)]?
+        else if start + r ≤ k ∧ k < end_ - l then a[k - r + l]?
+        else if end_ - l ≤ k ∧ k < end_ then a[start + flip2 revL (k - (end_ - l))]?
+        else a[k]? := by
+    cases revR with
+    | false => exact ⟨a4, rfl, by omega, by intro k; rw [ka4]; simp [flip2]⟩
+    | true =>
+      have r2 : r = 2 := hrr rfl
+      subst r2
+      obtain ⟨a5, e5, s5, k5⟩ := swapA_spec a4 start (start + 1) (by omega) (by omega)
+      refine ⟨a5, e5, by omega, ?_⟩
+      intro k; rw [k5]
+      by_cases h1 : k = start + 1
+      · rw [if_pos h1, ka4, if_pos (by omega), if_pos (by omega)]
+        congr 1; simp [flip2]; omega
+      · rw [if_neg h1]
+        by_cases h2 : k = start
+        · rw [if_pos h2, ka4, if_pos (by omega), if_pos (by omega)]
+          congr 1; simp [flip2]; omega
+        · rw [if_neg h2, ka4]
+          have hc : ¬ (start ≤ k ∧ k < start + 2) := by omega
+          simp only [if_neg hc]
+  obtain ⟨a5, ea5, sa5, ka5⟩ := hsB
+  refine ⟨a5, ?_, sa5, ka5⟩
+  rw [eb1, ok_bind, eb2, ok_bind, ea1, ok_bind, ea2, ok_bind, ea3, ok_bind, ea4, ok_bind, ea5]
+
+theorem getElem?_app5 {α : Type} (p A x D q : List α) (k : Nat) :
+    (p ++ A ++ x ++ D ++ q)[k]? =
+      if k < p.length then p[k]?
+      else if k < p.length + A.length then A[k - p.length]?
+      else if k < p.length + A.length + x.length then x[k - p.length - A.length]?
+      else if k < p.length + A.length + x.length + D.length then D[k - p.length - A.length - x.length]?
+      else q[k - p.length - A.length - x.length - D.length]? := by
+  simp only [List.getElem?_append, List.length_append]
+  by_cases h1 : k < p.length
+  · have h2 : k < p.length + A.length := by omega
+    have h3 : k < p.length + A.length + x.length := by omega
+    have h4 : k < p.length + A.length + x.length + D.length := by omega
+    simp only [h1, h2, h3, h4, if_true]
+  · by_cases h2 : k < p.length + A.length
+    · have h3 : k < p.length + A.length + x.length := by omega
+      have h4 : k < p.length + A.length + x.length + D.length := by omega
+      simp only [h1, h2, h3, h4, if_true, if_false]
+    · by_cases h3 : k < p.length + A.length + x.length
+      · have h4 : k < p.length + A.length + x.length + D.length := by omega
+        simp only [h1, h2, h3, h4, if_true, if_false]
+        congr 1; omega
+      · by_cases h4 : k < p.length + A.length + x.length + D.length
+        · simp only [h1, h2, h3, h4, if_true, if_false]
+          congr 1; omega
+        · simp only [h1, h2, h3, h4, if_false]
+          congr 1; omega
+
+def flipL {α : Type} (rev : Bool) (l : List α) : List α := if rev then l.reverse else l
+
+theorem flipL_length {α : Type} (rev : Bool) (l : List α) : (flipL rev l).length = l.length := by
+  unfold flipL; split <;> simp
+
+theorem flipL_get {α : Type} (rev : Bool) (l : List α) (h : rev = true → l.length = 2) (j : Nat) (hj : j < l.length) :
+    (flipL rev l)[j]? = l[flip2 rev j]? := by
+  cases rev with
+  | false => simp [flipL, flip2]
+  | true =>
+    have h2 := h rfl
+    match l, h2 with
+    | [c, d], _ =>
+      simp [flipL, flip2]
+      match j, hj with
+      | 0, _ => simp
+      | 1, _ => simp
+
+theorem nibble_list (pre A x D post : List G) (l r : Nat) (revL revR : Bool)
+    (hA : A.length = l) (hD : D.length = r) (hl : l ≤ 2) (hr : r ≤ 2)
+    (hrl : revL = true → l = 2) (hrr : revR = true → r = 2) :
+    rearrangeCore (pre ++ A ++ x ++ D ++ post).toArray pre.length (pre.length + l + x.length + r) l r revL revR
+      = .ok (pre ++ flipL revR D ++ x ++ flipL revL A ++ post).toArray := by
+  have hsz : (pre ++ A ++ x ++ D ++ post).toArray.size = pre.length + l + x.length + r + post.length := by
+    simp [hA, hD]; omega
+  obtain ⟨a', e, hs, hk⟩ := rearrangeCore_get (pre ++ A ++ x ++ D ++ post).toArray pre.length
+    (pre.length + l + x.length + r) l r revL revR hl hr (by omega) (by omega) hrl hrr
+  rw [e]; congr 1
+  apply Array.ext_getElem?
+  intro k
+  rw [hk]
+  simp only [List.getElem?_toArray]
+  rw [getElem?_app5 pre (flipL revR D) x (flipL revL A) post k]
+  simp only [flipL_length, hA, hD]
+  by_cases c0 : k < pre.length
+  · rw [if_neg (by omega), if_neg (by omega), if_neg (by omega), if_pos c0, getElem?_app5, if_pos c0]
+  · rw [if_neg c0]
+    by_cases c1 : k < pre.length + r
+    · rw [if_pos (by omega), if_pos c1, flipL_get revR D (by simpa [hD] using hrr) _ (by omega), getElem?_app5]
+      have hf : flip2 revR (k - pre.length) < r := by
+        unfold flip2; split
+        · have := hrr (by assumption); omega
+        · omega
+      rw [if_neg (by omega), if_neg (by omega), if_neg (by omega), if_pos (by simp [hA, hD]; omega)]
+      congr 1; simp [hA]; omega
+    · rw [if_neg (by omega), if_neg c1]
+      by_cases c2 : k < pre.length + r + x.length
+      · rw [if_pos (by omega), if_pos c2, getElem?_app5,
+          if_neg (by omega), if_neg (by simp [hA]; omega), if_pos (by simp [hA]; omega)]
+        congr 1; simp [hA]; omega
+      · rw [if_neg (by omega), if_neg c2]
+        by_cases c3 : k < pre.length + r + x.length + l
+        · rw [if_pos (by omega), if_pos c3, flipL_get revL A (by simpa [hA] using hrl) _ (by omega), getElem?_app5]
+          have hf : flip2 revL (k - (pre.length + l + x.length + r - l)) < l := by
+            unfold flip2; split
+            · have := hrl (by assumption); omega
+            · omega
+          rw [if_neg (by omega), if_pos (by simp [hA]; omega)]
+          have e1 : k - pre.length - r - x.length = k - (pre.length + l + x.length + r - l) := by omega
+          rw [e1]
+          congr 1; simp
+        · rw [if_neg (by omega), if_neg c3, getElem?_app5,
+            if_neg (by omega), if_neg (by simp [hA]; omega), if_neg (by simp [hA]; omega),
+            if_neg (by simp [hA, hD]; omega)]
+          congr 1; simp [hA, hD]; omega
+
+open RbModel.Spec.Aat in
+theorem rearrange_table (σ : RbModel.Spec.Aat.Asg G) (pre post : List G) : (v : Nat) → (hv : v < 16) →
+    rearrangeCore (pre ++ inst σ (verbTable v).1 ++ post).toArray pre.length
+        (pre.length + (inst σ (verbTable v).1).length)
+        (verbParams v).1 (verbParams v).2.1 (verbParams v).2.2.1 (verbParams v).2.2.2
+      = .ok (pre ++ inst σ (verbTable v).2 ++ post).toArray
+  | 0, _ => by
+    have hp : verbParams 0 = (0, 0, false, false) := by decide
+    have h := nibble_list pre [] σ.x [] post 0 0 false false rfl rfl (by omega) (by omega) (by simp) (by simp)
+    simp only [hp, verbTable, inst]
+    simpa [flipL, Nat.add_assoc, Nat.add_comm, Nat.add_left_comm] using h
+  | 1, _ => by
+    have hp : verbParams 1 = (1, 0, false, false) := by decide
+    have h := nibble_list pre [σ.a] σ.x [] post 1 0 false false rfl rfl (by omega) (by omega) (by simp) (by simp)
+    simp only [hp, verbTable, inst]
+    simpa [flipL, Nat.add_assoc, Nat.add_comm, Nat.add_left_comm] using h
+  | 2, _ => by
+    have hp : verbParams 2 = (0, 1, false, false) := by decide
+    have h := nibble_list pre [] σ.x [σ.d] post 0 1 false false rfl rfl (by omega) (by omega) (by simp) (by simp)
+    simp only [hp, verbTable, inst]
+    simpa [flipL, Nat.add_assoc, Nat.add_comm, Nat.add_left_comm] using h
+  | 3, _ => by
+    have hp : verbParams 3 = (1, 1, false, false) := by decide
+    have h := nibble_list pre [σ.a] σ.x [σ.d] post 1 1 false false rfl rfl (by omega) (by omega) (by simp) (by simp)
+    simp only [hp, verbTable, inst]
+    simpa [flipL, Nat.add_assoc, Nat.add_comm, Nat.add_left_comm] using h
+  | 4, _ => by
+    have hp : verbParams 4 = (2, 0, false, false) := by decide
+    have h := nibble_list pre [σ.a, σ.b] σ.x [] post 2 0 false false rfl rfl (by omega) (by omega) (by simp) (by simp)
+    simp only [hp, verbTable, inst]
+    simpa [flipL, Nat.add_assoc, Nat.add_comm, Nat.add_left_comm] using h
+  | 5, _ => by
+    have hp : verbParams 5 = (2, 0, true, false) := by decide
+    have h := nibble_list pre [σ.a, σ.b] σ.x [] post 2 0 true false rfl rfl (by omega) (by omega) (by simp) (by simp)
+    simp only [hp, verbTable, inst]
+    simpa [flipL, Nat.add_assoc, Nat.add_comm, Nat.add_left_comm] using h
+  | 6, _ => by
+    have hp : verbParams 6 = (0, 2, false, false) := by decide
+    have h := nibble_list pre [] σ.x [σ.c, σ.d] post 0 2 false false rfl rfl (by omega) (by omega) (by simp) (by simp)
+    simp only [hp, verbTable, inst]
+    simpa [flipL, Nat.add_assoc, Nat.add_comm, Nat.add_left_comm] using h
+  | 7, _ => by
+    have hp : verbParams 7 = (0, 2, false, true) := by decide
+    have h := nibble_list pre [] σ.x [σ.c, σ.d] post 0 2 false true rfl rfl (by omega) (by omega) (by simp) (by simp)
+    simp only [hp, verbTable, inst]
+    simpa [flipL, Nat.add_assoc, Nat.add_comm, Nat.add_left_comm] using h
+  | 8, _ => by
+    have hp : verbParams 8 = (1, 2, false, false) := by decide
+    have h := nibble_list pre [σ.a] σ.x [σ.c, σ.d] post 1 2 false false rfl rfl (by omega) (by omega) (by simp) (by simp)
+    simp only [hp, verbTable, inst]
+    simpa [flipL, Nat.add_assoc, Nat.add_comm, Nat.add_left_comm] using h
+  | 9, _ => by
+    have hp : verbParams 9 = (1, 2, false, true) := by decide
+    have h := nibble_list pre [σ.a] σ.x [σ.c, σ.d] post 1 2 false true rfl rfl (by omega) (by omega) (by simp) (by simp)
+    simp only [hp, verbTable, inst]
+    simpa [flipL, Nat.add_assoc, Nat.add_comm, Nat.add_left_comm] using h
+  | 10, _ => by
+    have hp : verbParams 10 = (2, 1, false, false) := by decide
+    have h := nibble_list pre [σ.a, σ.b] σ.x [σ.d] post 2 1 false false rfl rfl (by omega) (by omega) (by simp) (by simp)
+    simp only [hp, verbTable, inst]
+    simpa [flipL, Nat.add_assoc, Nat.add_comm, Nat.add_left_comm] using h
+  | 11, _ => by
+    have hp : verbParams 11 = (2, 1, true, false) := by decide
+    have h := nibble_list pre [σ.a, σ.b] σ.x [σ.d] post 2 1 true false rfl rfl (by omega) (by omega) (by simp) (by simp)
+    simp only [hp, verbTable, inst]
+    simpa [flipL, Nat.add_assoc, Nat.add_comm, Nat.add_left_comm] using h
+  | 12, _ => by
+    have hp : verbParams 12 = (2, 2, false, false) := by decide
+    have h := nibble_list pre [σ.a, σ.b] σ.x [σ.c, σ.d] post 2 2 false false rfl rfl (by omega) (by omega) (by simp) (by simp)
+    simp only [hp, verbTable, inst]
+    simpa [flipL, Nat.add_assoc, Nat.add_comm, Nat.add_left_comm] using h
+  | 13, _ => by
+    have hp : verbParams 13 = (2, 2, true, false) := by decide
+    have h := nibble_list pre [σ.a, σ.b] σ.x [σ.c, σ.d] post 2 2 true false rfl rfl (by omega) (by omega) (by simp) (by simp)
+    simp only [hp, verbTable, inst]
+    simpa [flipL, Nat.add_assoc, Nat.add_comm, Nat.add_left_comm] using h
+  | 14, _ => by
+    have hp : verbParams 14 = (2, 2, false, true) := by decide
+    have h := nibble_list pre [σ.a, σ.b] σ.x [σ.c, σ.d] post 2 2 false true rfl rfl (by omega) (by omega) (by simp) (by simp)
+    simp only [hp, verbTable, inst]
+    simpa [flipL, Nat.add_assoc, Nat.add_comm, Nat.add_left_comm] using h
+  | 15, _ => by
+    have hp : verbParams 15 = (2, 2, true, true) := by decide
+    have h := nibble_list pre [σ.a, σ.b] σ.x [σ.c, σ.d] post 2 2 true true rfl rfl (by omega) (by omega) (by simp) (by simp)
+    simp only [hp, verbTable, inst]
+    simpa [flipL, Nat.add_assoc, Nat.add_comm, Nat.add_left_comm] using h
+  | n + 16, h => by omega
+
+/-- the control part of a buffer: everything but the two glyph vectors -/
+def Buf.ctl (b : Buf) : Buf := { b with info := #[], out := #[] }
+
+theorem bind_ok_inv {α β : Type} {x : M α} {f : α → M β} {y : β} (h : (x >>= f) = .ok y) :
+    ∃ a, x = .ok a ∧ f a = .ok y := by
+  cases x with
+  | error e => simp [bind, Except.bind] at h
+  | ok a => exact ⟨a, rfl, h⟩
+
+theorem mergeClusters_ctl {b b' : Buf} {s e : Nat} (h : mergeClusters b s e = .ok b') : b'.ctl = b.ctl := by
+  unfold mergeClusters at h
+  simp only [bind, Except.bind, pure, Except.pure] at h
+  split at h
+  · simp [throw, throwThe, MonadExceptOf.throw] at h
+  · split at h
+    · cases h; rfl
+    · split at h
+      · cases h
+      · cases h; rfl
+
+theorem rearrApply_ctl {cs : CS} {v : Nat} {b b' : Buf} (h : rearrApply cs v b = .ok b') : b'.ctl = b.ctl := by
+  unfold rearrApply at h
+  simp only [] at h
+  split at h
+  · obtain ⟨b1, h1, h⟩ := bind_ok_inv h
+    obtain ⟨b2, h2, h⟩ := bind_ok_inv h
+    obtain ⟨i, _, h⟩ := bind_ok_inv h
+    cases h
+    have := mergeClusters_ctl h1
+    have := mergeClusters_ctl h2
+    simp_all [Buf.ctl]
+  · cases h; rfl
+
+theorem rearrTransition_ctl {cs cs' : CS} {e : Entry} {b b' : Buf}
+    (h : rearrTransition cs e b = .ok (cs', b')) : b'.ctl = b.ctl := by
+  unfold rearrTransition at h
+  simp only [] at h
+  split at h
+  · obtain ⟨b1, h1, h⟩ := bind_ok_inv h
+    cases h
+    exact rearrApply_ctl h1
+  · cases h; rfl
+
+theorem ctxSubst_ctl {lks : Nat → Option Lookup} {i p : Nat} {b b' : Buf}
+    (h : ctxSubst lks i p b = .ok (some b')) : b'.ctl = b.ctl := by
+  unfold ctxSubst at h
+  simp only [bind, Except.bind, pure, Except.pure] at h
+  split at h
+  · split at h
+    · cases h
+    · split at h
+      · cases h
+      · split at h
+        · split at h
+          · cases h
+          · cases h; rfl
+        · cases h; rfl
+  · cases h; rfl
+
+theorem ctxTransition_ctl {lks : Nat → Option Lookup} {cs cs' : CS} {e : Entry} {b b' : Buf}
+    (h : ctxTransition lks cs e b = .ok (cs', b')) : b'.ctl = b.ctl := by
+  unfold ctxTransition at h
+  simp only [bind, Except.bind, pure, Except.pure] at h
+  split at h
+  · cases h; rfl
+  · split at h
+    · cases h
+    · rename_i r1 hr1
+      split at h
+      · cases h; rfl
+      · rename_i b1
+        have c1 := ctxSubst_ctl hr1
+        split at h
+        · cases h
+        · rename_i r2 hr2
+          split at h
+          · cases h; exact c1
+          · rename_i b2
+            have c2 := ctxSubst_ctl hr2
+            cases h
+            rw [c2, c1]
+
+/-- a driver context whose transitions touch only the glyph vectors (rearrangement, contextual) -/
+def KeepsCtl (c : Ctx) : Prop :=
+  ∀ cs e b cs' b', c.transition cs e b = .ok (cs', b') → b'.ctl = b.ctl
+
+theorem ctl_fields {b b' : Buf} (h : b'.ctl = b.ctl) :
+    b'.idx = b.idx ∧ b'.len = b.len ∧ b'.maxOps = b.maxOps ∧ b'.successful = b.successful ∧
+    b'.haveOutput = b.haveOutput ∧ b'.outLen = b.outLen := by
+  simp only [Buf.ctl, Buf.mk.injEq] at h
+  obtain ⟨_, _, h1, h2, h3, h4, _, h6, _, h8, _⟩ := h
+  exact ⟨h1, h2, h8, h6, h4, h3⟩
+
+/-- the linear budget of an in-place subtable -/
+def mu (b : Buf) : Nat := (b.len - b.idx) + b.maxOps.toNat
+
+theorem nextGlyph_inplace {b : Buf} (h : b.haveOutput = false) : nextGlyph b = .ok { b with idx := b.idx + 1 } := by
+  simp [nextGlyph, h]; rfl
+
+theorem advance_inplace {b b2 : Buf} {ca : Bool} (ho : b.haveOutput = false) (hs : b.successful = true)
+    (hlt : b.idx < b.len) (h : advance ca b = .ok b2) :
+    b2.haveOutput = false ∧ b2.idx ≤ b2.len ∧ mu b2 < mu b ∧ lexLt (psi b2) (psi b) = true := by
+  unfold advance at h
+  split at h
+  · rw [nextGlyph_inplace ho] at h; cases h
+    refine ⟨ho, by simp; omega, by simp [mu]; omega, ?_⟩
+    simp [lexLt, psi, hs]; omega
+  · split at h
+    · rw [nextGlyph_inplace ho] at h
+      simp only [bind, Except.bind, pure, Except.pure] at h
+      cases h
+      rename_i hle
+      refine ⟨ho, by simp; omega, by simp [mu]; omega, ?_⟩
+      simp [lexLt, psi, hs]; omega
+    · cases h
+      rename_i hgt
+      refine ⟨ho, by simp; omega, by simp [mu]; omega, ?_⟩
+      simp [lexLt, psi, hs]; omega
+
+theorem driveStep_inplace {m : Machine} {c : Ctx} (hc : KeepsCtl c) {rf : Array Range} {sf : Nat}
+    {b : Buf} {cs : CS} {st : Nat} {lr : Option Nat} {b' : Buf} {cs' : CS} {st' : Nat} {lr' : Option Nat}
+    (ho : b.haveOutput = false) (hi : b.idx ≤ b.len)
+    (h : driveStep m c rf sf b cs st lr = .ok (.next b' cs' st' lr')) :
+    b'.haveOutput = false ∧ b'.idx ≤ b'.len ∧ mu b' < mu b ∧ lexLt (psi b') (psi b) = true := by
+  unfold driveStep at h
+  obtain ⟨⟨skip, lr1⟩, _, h⟩ := bind_ok_inv h
+  simp only [] at h
+  split at h
+  · split at h
+    · cases h
+    · rename_i hcond
+      simp only [Bool.or_eq_true, beq_iff_eq, Bool.not_eq_true', not_or, Bool.not_eq_false] at hcond
+      obtain ⟨b1, h1, h⟩ := bind_ok_inv h
+      cases h
+      rw [nextGlyph_inplace ho] at h1; cases h1
+      refine ⟨ho, by simp; omega, by simp [mu]; omega, ?_⟩
+      simp [lexLt, psi, hcond.2]; omega
+  · unfold driveMain at h
+    obtain ⟨cls, _, h⟩ := bind_ok_inv h
+    split at h
+    · cases h
+    · rename_i e he
+      obtain ⟨_, _, h⟩ := bind_ok_inv h
+      obtain ⟨⟨cs1, b1⟩, ht, h⟩ := bind_ok_inv h
+      simp only [] at h
+      split at h
+      · cases h
+      · rename_i hcond
+        simp only [ge_iff_le, Bool.or_eq_true, decide_eq_true_eq, Bool.not_eq_true', not_or,
+          Bool.not_eq_false] at hcond
+        obtain ⟨b2, h2, h⟩ := bind_ok_inv h
+        cases h
+        obtain ⟨e1, e2, e3, e4, e5, _⟩ := ctl_fields (hc _ _ _ _ _ ht)
+        have := advance_inplace (by rw [e5]; exact ho) hcond.2 (by omega) h2
+        refine ⟨this.1, this.2.1, ?_, ?_⟩
+        · have := this.2.2.1; simp [mu] at *; omega
+        · have := this.2.2.2; simp [lexLt, psi] at *; rw [e4] at hcond; simp_all
+
+theorem driveLoop_inplace {m : Machine} {c : Ctx} (hc : KeepsCtl c) (rf : Array Range) (sf : Nat) :
+    ∀ (n : Nat) (b : Buf) (cs : CS) (st : Nat) (lr : Option Nat) (steps : Nat),
+      mu b ≤ n → b.haveOutput = false → b.idx ≤ b.len →
+      driveLoopO m c rf sf b cs st lr steps ≠ .ok none ∧
+      ∀ b' k, driveLoopO m c rf sf b cs st lr steps = .ok (some (b', k)) → k ≤ steps + mu b + 1 := by
+  intro n
+  induction n with
+  | zero =>
+    intro b cs st lr steps hmu ho hi
+    rw [driveLoopO]
+    split
+    · exact ⟨by simp, by simp⟩
+    · refine ⟨by simp, ?_⟩
+      intro b' k h; cases h; omega
+    · rename_i b1 cs1 st1 lr1 hstep
+      have := driveStep_inplace hc ho hi hstep
+      omega
+  | succ n ih =>
+    intro b cs st lr steps hmu ho hi
+    rw [driveLoopO]
+    split
+    · exact ⟨by simp, by simp⟩
+    · refine ⟨by simp, ?_⟩
+      intro b' k h; cases h; omega
+    · rename_i b1 cs1 st1 lr1 hstep
+      obtain ⟨ho1, hi1, hmu1, hlex⟩ := driveStep_inplace hc ho hi hstep
+      rw [dif_pos hlex]
+      have := ih b1 cs1 st1 lr1 (steps + 1) (by omega) ho1 hi1
+      refine ⟨this.1, ?_⟩
+      intro b' k h
+      have := this.2 b' k h
+      omega
+
+section
+open RbModel.Spec.Aat
+set_option linter.unusedSimpArgs false
+theorem rearr_keepsCtl : KeepsCtl rearrCtx := fun _ _ _ _ _ h => rearrTransition_ctl h
+theorem ctx_keepsCtl (lks : Nat → Option Lookup) : KeepsCtl (ctxCtx lks) := fun _ _ _ _ _ h => ctxTransition_ctl h
+
+def symSub {α : Type} (σ : Asg α) : Sym → List α
+  | .A => [σ.a] | .B => [σ.b] | .C => [σ.c] | .D => [σ.d] | .x => σ.x
+
+theorem inst_flatMap {α : Type} (σ : Asg α) (p : List Sym) : inst σ p = p.flatMap (symSub σ) := by
+  induction p with
+  | nil => rfl
+  | cons s r ih => cases s <;> simp [inst, symSub, ih]
+
+theorem inst_perm {α : Type} (σ : Asg α) {p q : List Sym} (h : p.Perm q) : (inst σ p).Perm (inst σ q) := by
+  rw [inst_flatMap, inst_flatMap]; exact h.flatMap_right _
+
+theorem verbTable_perm : ∀ v, v < 16 → (verbTable v).2.Perm (verbTable v).1 := by decide
+
+theorem inst_perm_table {α : Type} (σ : Asg α) (v : Nat) (hv : v < 16) :
+    (inst σ (verbTable v).2).Perm (inst σ (verbTable v).1) := inst_perm σ (verbTable_perm v hv)
+
+theorem inst_long_enough (σ : Asg G) : (v : Nat) → (hv : v < 16) →
+    (verbParams v).1 + (verbParams v).2.1 ≤ (inst σ (verbTable v).1).length
+  | 0, _ => by
+    have hp : verbParams 0 = (0, 0, false, false) := by decide
+    simp [hp, verbTable, inst]; try omega
+  | 1, _ => by
+    have hp : verbParams 1 = (1, 0, false, false) := by decide
+    simp [hp, verbTable, inst]; try omega
+  | 2, _ => by
+    have hp : verbParams 2 = (0, 1, false, false) := by decide
+    simp [hp, verbTable, inst]; try omega
+  | 3, _ => by
+    have hp : verbParams 3 = (1, 1, false, false) := by decide
+    simp [hp, verbTable, inst]; try omega
+  | 4, _ => by
+    have hp : verbParams 4 = (2, 0, false, false) := by decide
+    simp [hp, verbTable, inst]; try omega
+  | 5, _ => by
+    have hp : verbParams 5 = (2, 0, true, false) := by decide
+    simp [hp, verbTable, inst]; try omega
+  | 6, _ => by
+    have hp : verbParams 6 = (0, 2, false, false) := by decide
+    simp [hp, verbTable, inst]; try omega
+  | 7, _ => by
+    have hp : verbParams 7 = (0, 2, false, true) := by decide
+    simp [hp, verbTable, inst]; try omega
+  | 8, _ => by
+    have hp : verbParams 8 = (1, 2, false, false) := by decide
+    simp [hp, verbTable, inst]; try omega
+  | 9, _ => by
+    have hp : verbParams 9 = (1, 2, false, true) := by decide
+    simp [hp, verbTable, inst]; try omega
+  | 10, _ => by
+    have hp : verbParams 10 = (2, 1, false, false) := by decide
+    simp [hp, verbTable, inst]; try omega
+  | 11, _ => by
+    have hp : verbParams 11 = (2, 1, true, false) := by decide
+    simp [hp, verbTable, inst]; try omega
+  | 12, _ => by
+    have hp : verbParams 12 = (2, 2, false, false) := by decide
+    simp [hp, verbTable, inst]; try omega
+  | 13, _ => by
+    have hp : verbParams 13 = (2, 2, true, false) := by decide
+    simp [hp, verbTable, inst]; try omega
+  | 14, _ => by
+    have hp : verbParams 14 = (2, 2, false, true) := by decide
+    simp [hp, verbTable, inst]; try omega
+  | 15, _ => by
+    have hp : verbParams 15 = (2, 2, true, true) := by decide
+    simp [hp, verbTable, inst]; try omega
+  | n + 16, h => by omega
+
+theorem applyVerb_inst {α : Type} (σ : Asg α) : (v : Nat) → (hv : v < 16) →
+    applyVerb v (inst σ (verbTable v).1) = some (inst σ (verbTable v).2)
+  | 0, _ => by
+    simp [applyVerb, verbTable, nLead, nTrail, inst, List.zipIdx, List.flatMap]
+    try omega
+  | 1, _ => by
+    simp [applyVerb, verbTable, nLead, nTrail, inst, List.zipIdx, List.flatMap]
+    try omega
+  | 2, _ => by
+    simp [applyVerb, verbTable, nLead, nTrail, inst, List.zipIdx, List.flatMap]
+    try omega
+  | 3, _ => by
+    simp [applyVerb, verbTable, nLead, nTrail, inst, List.zipIdx, List.flatMap]
+    try omega
+  | 4, _ => by
+    simp [applyVerb, verbTable, nLead, nTrail, inst, List.zipIdx, List.flatMap]
+    try omega
+  | 5, _ => by
+    simp [applyVerb, verbTable, nLead, nTrail, inst, List.zipIdx, List.flatMap]
+    try omega
+  | 6, _ => by
+    simp [applyVerb, verbTable, nLead, nTrail, inst, List.zipIdx, List.flatMap]
+    try omega
+  | 7, _ => by
+    simp [applyVerb, verbTable, nLead, nTrail, inst, List.zipIdx, List.flatMap]
+    try omega
+  | 8, _ => by
+    simp [applyVerb, verbTable, nLead, nTrail, inst, List.zipIdx, List.flatMap]
+    try omega
+  | 9, _ => by
+    simp [applyVerb, verbTable, nLead, nTrail, inst, List.zipIdx, List.flatMap]
+    try omega
+  | 10, _ => by
+    simp [applyVerb, verbTable, nLead, nTrail, inst, List.zipIdx, List.flatMap]
+    try omega
+  | 11, _ => by
+    simp [applyVerb, verbTable, nLead, nTrail, inst, List.zipIdx, List.flatMap]
+    try omega
+  | 12, _ => by
+    simp [applyVerb, verbTable, nLead, nTrail, inst, List.zipIdx, List.flatMap]
+    try omega
+  | 13, _ => by
+    simp [applyVerb, verbTable, nLead, nTrail, inst, List.zipIdx, List.flatMap]
+    try omega
+  | 14, _ => by
+    simp [applyVerb, verbTable, nLead, nTrail, inst, List.zipIdx, List.flatMap]
+    try omega
+  | 15, _ => by
+    simp [applyVerb, verbTable, nLead, nTrail, inst, List.zipIdx, List.flatMap]
+    try omega
+  | n + 16, h => by omega
+
+end
 end RbModel.Morx
